@@ -3,7 +3,7 @@
    used here are proved for both values). *)
 From Coq Require Import NArith ZArith Arith List Bool Lia.
 From DV Require Import Base.Outcome Base.Bytes Base.Names C16.Gen C16.Model
-  C16.ProofsNeg C16.ProofsTrunc C16.ProofsFrame.
+  C16.ProofsNeg C16.ProofsTrunc C16.ProofsFrame C16.ProofsSrv.
 Import ListNotations.
 Local Open Scope N_scope.
 
@@ -25,32 +25,51 @@ Proof.
   unfold udp_limit. rewrite F. apply limit_is_text_when_fixed.
 Qed.
 
-Definition post rq hint m := mandatory_post_gen trunc_no_opt_is_min true rq hint m.
+Notation FX := trunc_no_opt_is_min.
+Notation FQ := trunc_questions_limited.
+Notation EQ := err_resp_first_question_only.
+Definition post rq hint m := mandatory_post_gen FX FQ EQ true rq hint m.
 Definition tmax rq hint := trunc_max (is_some (rq_client rq)) hint.
 Definition hq_len (m : msg) : N := 12 + qs_len (m_qs m).   (* header + questions *)
+Definition kept_q max qs := kept_qs FQ max qs.             (* the questions truncate keeps *)
+Definition tform max m := trunc_form FQ max m.
 
 Lemma top_udp_size_cases rq hint m : mlen m <= 65535 ->
   (mlen m <= tmax rq hint /\ mlen (post rq hint m) = mlen m /\
-   tc_set (m_b2 (post rq hint m)) = tc_set (m_b2 m) /\
+   tc_set (m_b2 (post rq hint m)) = tc_set (m_b2 m) /\ m_qs (post rq hint m) = m_qs m /\
    m_an (post rq hint m) = m_an m /\ m_ns (post rq hint m) = m_ns m /\ m_ar (post rq hint m) = m_ar m) \/
-  (tmax rq hint < mlen m /\ mlen (post rq hint m) = mlen (trunc_form (tmax rq hint) m) /\
+  (tmax rq hint < mlen m /\ mlen (post rq hint m) = mlen (tform (tmax rq hint) m) /\
    tc_set (m_b2 (post rq hint m)) = true /\
+   m_qs (post rq hint m) = kept_q (tmax rq hint) (m_qs m) /\
    m_an (post rq hint m) = [] /\ m_ns (post rq hint m) = [] /\
-   m_ar (post rq hint m) = trunc_ar (tmax rq hint) m).
+   m_ar (post rq hint m) = trunc_ar (tmax rq hint) (kept_q (tmax rq hint) (m_qs m)) (m_ar m)).
 Proof. apply udp_size_cases. Qed.
 
 Lemma top_trunc_three_way max m :
-  (trunc_ar max m = [] /\ mlen (trunc_form max m) = hq_len m) \/
-  (exists o, first_opt (m_ar m) = Some o /\ trunc_ar max m = [RROpt o] /\
-             mlen (trunc_form max m) = hq_len m + opt_len o /\ hq_len m + opt_len o <= max) \/
-  (exists o, first_opt (m_ar m) = Some o /\ trunc_ar max m = [RROpt (min_opt o)] /\
-             mlen (trunc_form max m) = hq_len m + 11 /\
-             max < hq_len m + opt_len o /\ hq_len m + 11 <= max).
+  let qs := kept_q max (m_qs m) in
+  (trunc_ar max qs (m_ar m) = [] /\ mlen (tform max m) = 12 + qs_len qs) \/
+  (exists o, first_opt (m_ar m) = Some o /\ trunc_ar max qs (m_ar m) = [RROpt o] /\
+             mlen (tform max m) = 12 + qs_len qs + opt_len o /\ 12 + qs_len qs + opt_len o <= max) \/
+  (exists o, first_opt (m_ar m) = Some o /\ trunc_ar max qs (m_ar m) = [RROpt (min_opt o)] /\
+             mlen (tform max m) = 12 + qs_len qs + 11 /\
+             max < 12 + qs_len qs + opt_len o /\ 12 + qs_len qs + 11 <= max).
 Proof. apply trunc_ar_cases. Qed.
 
+(* the questions kept: a prefix; all of them when header + questions fit; with the
+   limit-aware loop they end at or below the limit *)
+Lemma top_kept_questions max qs :
+  (exists rest, qs = kept_q max qs ++ rest) /\
+  (12 + qs_len qs <= max -> kept_q max qs = qs) /\
+  (FQ = false -> kept_q max qs = qs) /\
+  (FQ = true -> 12 <= max -> 12 + qs_len (kept_q max qs) <= max).
+Proof.
+  unfold kept_q. split; [apply kept_prefix|]. split; [apply kept_qs_all|].
+  split; [intros ->; apply kept_qs_unlimited|intros ->; apply kept_qs_fits].
+Qed.
+
 Lemma top_udp_size_bound rq hint m : mlen m <= 65535 ->
-  (hq_len m <= tmax rq hint -> mlen (post rq hint m) <= tmax rq hint) /\
-  (tmax rq hint < hq_len m ->
+  ((FQ = true /\ 12 <= tmax rq hint) \/ hq_len m <= tmax rq hint -> mlen (post rq hint m) <= tmax rq hint) /\
+  (FQ = false -> tmax rq hint < hq_len m ->
      mlen (post rq hint m) = hq_len m /\ tc_set (m_b2 (post rq hint m)) = true /\
      m_an (post rq hint m) = [] /\ m_ns (post rq hint m) = [] /\ m_ar (post rq hint m) = []).
 Proof. apply udp_size_bound_gen. Qed.
@@ -61,29 +80,61 @@ Lemma top_udp_size_bound_one_question rq cfg m r q :
   mlen r <= text_limit (rq_client rq) cfg.
 Proof.
   intros Hq Hw Hk Hl E.
-  destruct (udp_size_bound_one_question _ rq cfg m r q Hq Hw Hk Hl E) as (lim & L & B).
+  destruct (udp_size_bound_service _ _ _ rq cfg m r (or_intror (ex_intro _ q (conj Hq Hw))) Hk Hl E) as (lim & L & B).
   change (udp_limit_gen trunc_no_opt_is_min) with udp_limit in L.
   rewrite (top_limit_is_text _ _ Hk) in L. inversion L; subst. exact B.
 Qed.
+
+(* the whole datagram server, every path: within the property text's limit once
+   truncate limits the questions and error responses echo at most one question *)
+Lemma top_udp_server_bound_once_fixed : FQ = true -> EQ = true ->
+  forall x cfg svc r, hint_ok cfg -> Forall wf_q (firstn 1 (x_qs x)) ->
+  (forall m, svc = SvcOk m -> mlen m <= 65535) ->
+  udp_server x cfg svc = Ok (Some r) -> mlen r <= text_limit (x_client x) cfg.
+Proof.
+  assert (F : FX = true) by reflexivity.
+  unfold udp_server. rewrite F. intros -> ->. exact udp_server_bound.
+Qed.
+
+Lemma top_many_questions_refuted : FQ = false ->
+  exists r, udp_server many_q_x None many_q_svc = Ok (Some r) /\
+            tc_set (m_b2 r) = true /\ mlen r = 712 /\ text_limit (x_client many_q_x) None = 512.
+Proof. unfold udp_server. intros ->. apply many_questions_refuted_gen. Qed.
+
+Lemma top_error_echo_refuted : EQ = false ->
+  exists r, udp_server many_q_reply (Some 1232) SvcNone = Ok (Some r) /\
+            tc_set (m_b2 r) = false /\ mlen r = 723 /\ text_limit (x_client many_q_reply) (Some 1232) = 512.
+Proof. unfold udp_server. intros ->. apply error_echo_refuted_gen. Qed.
+
+Lemma top_udp_server_total x cfg svc : exists r, udp_server x cfg svc = Ok r.
+Proof. apply udp_server_total. Qed.
+
+Lemma top_udp_server_id x cfg svc r : udp_server x cfg svc = Ok (Some r) -> m_id r = x_id x.
+Proof. apply udp_server_id. Qed.
 
 Lemma top_tc_iff rq hint m : mlen m <= 65535 ->
   tc_set (m_b2 (post rq hint m)) = true <-> (tmax rq hint < mlen m \/ tc_set (m_b2 m) = true).
 Proof. apply tc_iff_gen. Qed.
 
 Lemma top_dropped_implies_tc rq hint m : mlen m <= 65535 ->
-  (m_an (post rq hint m) <> m_an m \/ m_ns (post rq hint m) <> m_ns m \/ m_ar (post rq hint m) <> m_ar m) ->
+  (m_qs (post rq hint m) <> m_qs m \/ m_an (post rq hint m) <> m_an m \/
+   m_ns (post rq hint m) <> m_ns m \/ m_ar (post rq hint m) <> m_ar m) ->
   tc_set (m_b2 (post rq hint m)) = true.
 Proof. apply dropped_implies_tc. Qed.
 
 Lemma top_truncated_wellformed rq hint m : mlen m <= 65535 -> rq_id rq < 65536 -> wf_resp m ->
   tmax rq hint < mlen m ->
   tc_set (m_b2 (post rq hint m)) = true /\ m_an (post rq hint m) = [] /\ m_ns (post rq hint m) = [] /\
-  m_ar (post rq hint m) = trunc_ar (tmax rq hint) m /\ m_qs (post rq hint m) = m_qs m /\
+  m_qs (post rq hint m) = kept_q (tmax rq hint) (m_qs m) /\
+  m_ar (post rq hint m) = trunc_ar (tmax rq hint) (m_qs (post rq hint m)) (m_ar m) /\
   parse_min (wire_msg (post rq hint m)) = Some (post rq hint m).
 Proof. apply truncated_wellformed_gen. Qed.
 
 Lemma top_id_question_echoed rq cfg m r : mlen m <= 65535 ->
-  udp_response rq cfg m = Ok r -> m_id r = rq_id rq /\ m_qs r = m_qs m.
+  udp_response rq cfg m = Ok r ->
+  m_id r = rq_id rq /\ (exists rest, m_qs m = m_qs r ++ rest) /\
+  (FQ = false -> m_qs r = m_qs m) /\
+  (forall q, hint_ok cfg -> m_qs m = [q] -> wf_q q -> m_qs r = [q]).
 Proof. apply id_question_echoed. Qed.
 
 Lemma top_udp_response_total rq cfg m : exists r, udp_response rq cfg m = Ok r.
@@ -91,3 +142,12 @@ Proof. apply udp_response_total. Qed.
 
 Lemma top_push_script_bound l adds pos : pos < l -> snd (push_script (Some l) pos adds) < l.
 Proof. apply push_script_bound. Qed.
+
+Lemma top_tcp_server_framed x idle svc r :
+  12 + qs_len (x_qs x) + 11 <= 65535 -> (forall m, svc = SvcOk m -> mlen m <= 65535) ->
+  tcp_server x idle svc = Ok (Some r) ->
+  mlen r <= 65535 /\ exists f, frame_out (wire_msg r) = Ok f.
+Proof. apply tcp_server_framed. Qed.
+
+Lemma top_tcp_server_id x idle svc r : tcp_server x idle svc = Ok (Some r) -> m_id r = x_id x.
+Proof. apply tcp_server_id. Qed.
